@@ -522,8 +522,12 @@ def _run_trust(case, mon, viol):
                                       f'{text!r:.600}'})
                     else:
                         name = type(res).__name__
+                        # (ConnectionLost: the server found no host key
+                        # algorithm in common and its DISCONNECT was still
+                        # in flight when it aborted the transport)
                         if name not in ('HostKeyNotVerifiable',
-                                        'KeyExchangeFailed'):
+                                        'KeyExchangeFailed',
+                                        'ConnectionLost'):
                             viol.append({
                                 'mechanism': 'host_key_error_class',
                                 'detail': f'{res!r}; model: {why}'})
